@@ -77,8 +77,34 @@ def run(ctx):
             ctx.violation('canon-law', 'component canon\ninput %s\n' % lines[i], 'path %r: %s' % (c, why))
         if mout is not None and mout[i] != iout[i]:
             ctx.corr_broken.append('canon input %s: model %s impl %s' % (lines[i], mout[i], iout[i]))
+    # ---- "two spellings name the same file to ninja": the callers.  Engine histories in which commands report their
+    # dependencies and their own output under non-canonical spellings (./x, zz/../x; harness/run_engine.cc writes depfiles
+    # that way): the statement must still recognise its depfile and the repeated build must find nothing to do.
+    eng = {}
+    if not ctx.replay:
+        import random, enginecheck as ec
+        from props import engcommon
+        rnd = random.Random(ctx.seed * 14 + 1)
+        hists = [ec.gen_history(rnd, 'C14_e%d' % i, rnd.randrange(2, 7), rnd.randrange(1, 4), feat=dict(deps=0.9, subdirs=0.6, dyndep=0.0, validations=0.0), faults=0.0)
+                 for i in range(250 if ctx.quick() else 3000)]
+        rc_, tr, err_, out_ = ec.run_hists(hists)
+        known2 = {k.get('id') for k in ctx.known_list if k.get('property') == 'C02'}
+        nb = 0
+        for h in hists:
+            bs = tr.get(h.sid)
+            if bs is None: continue
+            prev = (None, None)
+            for st, b in ec.pair(h, bs):
+                nb += 1
+                bad = ec.oracle_c02(h, st, b, *prev)
+                if bad and not engcommon.classify_c02(h, st, b, known2):
+                    ctx.violation('same-file-two-spellings', ec.replay_text(h), '%s build %d: %s (depfile names are spelled ./x and zz/../x by the commands)' % (h.sid, bs.index(b), '; '.join(bad[:3])))
+                if 'depfile' in (b.err or '') and b.exit not in (0, None) and not getattr(st, 'faults', None):
+                    ctx.violation('same-file-two-spellings', ec.replay_text(h), '%s build %d: %s' % (h.sid, bs.index(b), (b.err or '')[:200]))
+                prev = (st, b)
+        eng = {'engine_histories_noncanonical_depfiles': len(hists), 'engine_builds': nb}
     ctx.cov.update(evaluations=len(cases), distinct_nontrivial=nontriv, exhaustive=bool(nexh),
                    rule='all %d strings over {a,b,.,/} of length <= %d (exhaustive) + %d random long paths (seeded); '
                         'non-trivial = input is changed by canonicalisation, distinct = distinct canonical results' % (nexh, L, len(cases) - nexh),
                    samples=[{'input': repr(cases[i]), 'impl': repr(vlib.unhex(iout[i]))} for i in (5, 300, 5000, nexh + 1, len(cases) - 1) if i < len(cases)],
-                   distribution={'exhaustive': nexh, 'random': len(cases) - nexh, 'max_len': max(map(len, cases))})
+                   distribution=dict({'exhaustive': nexh, 'random': len(cases) - nexh, 'max_len': max(map(len, cases))}, **eng))
